@@ -128,6 +128,9 @@ type clockState struct {
 // Differences and comparisons of two such readings use only ext (as in package time), which keeps
 // duration arithmetic linear. The wall-clock part is not tied to ext, but neither clock runs backwards.
 func (e *Exec) timeNow() Value {
+	if fr, ok := e.hostState["clock.frozen"].(*Agg); ok {
+		return e.copyVal(fr)
+	}
 	e.stubUsed("time.Now: arbitrary wall reading (2001..2128) plus a monotonic reading; neither decreases between calls")
 	tt := e.tt
 	sec := e.freshVar("now_sec33", 33)
@@ -145,5 +148,7 @@ func (e *Exec) timeNow() Value {
 	}
 	e.hostState["clock"] = &clockState{mono, w63}
 	wall := tt.Concat(tt.BV(1, 1), w63)
-	return &Agg{elems: []Value{wall, mono, Ptr{}}}
+	res := &Agg{elems: []Value{wall, mono, Ptr{}}}
+	e.hostState["clock.last"] = res
+	return res
 }
